@@ -83,6 +83,7 @@ HARMLESS = [
     ('C04', 'sc3/synth/synthdef.py', "            overridden = lag in rate_names", "            overridden = lag in ('ar', 'kr', 'ir', 'tr')", 'rate names spelled out in the override test'),
     ('C18', 'sc3/base/responders.py', "        func = self.wrap_func(func_proxy)\n        old_func = self.wrapped_funcs[func_proxy]\n        self.wrapped_funcs[func_proxy] = func", "        old_func = self.wrapped_funcs[func_proxy]\n        func = self.wrap_func(func_proxy)\n        self.wrapped_funcs[func_proxy] = func", 'old wrapped function read before the new one is made'),
     ('C13', 'sc3/seq/patterns/filterpatterns.py', "            for _ in bi.counter(self.repeats):\n                inevent[key] = True", "            repeats = self.repeats\n            for _ in bi.counter(repeats):\n                inevent[key] = True", 'local for the repeat count in Pn with a key'),
+    ('C04', 'sc3/synth/synthdef.py', "        for p in params[skip_args:]:", "        used_params = params[skip_args:]\n        for p in used_params:", 'local for the parameters after the prepended ones'),
 ]
 
 BREAKING = [
@@ -152,6 +153,11 @@ BREAKING = [
     ('C19', 'sc3/synth/envelope.py', "                start_level = target_level\n                begin_time = end_time\n", "                start_level = target_level\n                begin_time = end_time\n                break\n", 'envelope lookup gives up after the first segment'),
     ('C13', 'sc3/seq/patterns/filterpatterns.py', "            inevent[key] = False\n        return inevent", "        return inevent", 'Pn never clears its key'),
     ('C17', 'sc3/synth/server.py', "            self._buffer_allocator.free(block.address)\n", "            self._buffer_allocator.free(block.address)\n            break\n", 'only the first block of buffers is freed'),
+    ('C04', 'sc3/synth/synthdef.py', "        for i, name in enumerate(names):", "        for i, name in enumerate(names[:-1]):", 'last parameter gets no control'),
+    ('C02', 'sc3/synth/synthdef.py', "        for i, ugen in enumerate(self._children):\n            ugen._synth_index = i", "        for i, ugen in enumerate(self._children[:-1]):\n            ugen._synth_index = i", 'last unit keeps a stale index'),
+    ('C13', 'sc3/seq/patterns/valuepatterns.py', "            for _ in bi.counter(length):\n                stepval = step_stream.next(inval)", "            for _ in list(bi.counter(length))[1:]:\n                stepval = step_stream.next(inval)", 'Pseries one value short'),
+    ('C06', 'sc3/base/netaddr.py', "        for e in elements:\n            if isinstance(e[0], str):\n                elist.append", "        for e in elements[1:]:\n            if isinstance(e[0], str):\n                elist.append", 'first element dropped when a bundle is clumped'),
+    ('C19', 'sc3/synth/envelope.py', "        for i in range(size):\n            contents.append(levels[i + 1])", "        for i in range(size - 1):\n            contents.append(levels[i + 1])", 'last segment missing from the encoded envelope'),
 ]
 
 
